@@ -91,6 +91,9 @@ void _psErrorInt(const char *msg, int val) { }
 void _psErrorStr(const char *msg, const char *val) { }
 #endif
 
+/* plain units (metadata "plain": true): obligations are harness assertions */
+#define PLAIN_ASSERT(label, cond) __CPROVER_assert(cond, #label);
+
 /* a postcondition that must FAIL; the driver builds a twin of every unit with
    -DCANARY and refuses (exit 2) if the twin verifies: the precondition or an
    assumed contract is then contradictory and the real run proves nothing */
